@@ -248,11 +248,12 @@ PROPERTIES = {
     },
     'C10': {
         'main_scenarios': ['records'],
-        'units': [mainloop.MainLoop, mainspec.MainWiring, mainspec.MapDispatch, mainspec.MainUnits, io.HDF5FileUnits, ps.PhaseSpaceCtor12, ps.RulerCtor, ef.ElectricFieldScale, io.ProgramOptionsGetters, io.ProgramOptionsSave, ps.UpdateXProjection, ps.UpdateYProjection, ps.Integrate, ps.Variance, ef.WakePotential, ef.UpdateCSR, ef.ElectricFieldScale, io.HDF5FileSources, io.HDF5AppendField, io.HDF5AppendTracks, io.ReadPhaseSpace, io.MakePSFromHDF5],
+        'units': [mainloop.MainLoop, mainspec.MainWiring, mainspec.MapDispatch, mainspec.MainUnits, io.HDF5FileUnits, ps.PhaseSpaceCtor12, ps.RulerCtor, ef.ElectricFieldScale, io.ProgramOptionsGetters, io.ProgramOptionsSave, ps.UpdateXProjection, ps.UpdateYProjection, ps.Integrate, ps.Variance, ef.WakePotential, ef.UpdateCSR, io.HDF5FileSources, io.HDF5AppendField, io.HDF5AppendTracks, io.ReadPhaseSpace, io.MakePSFromHDF5],
         'lemmas': [],
         'level': 'other',
         'claim': 'partial: every record of a multi-row dataset takes row b from row b of its source (dataset extents vs buffer layout; for /CSR/Spectrum proved on the row copy of append(ElectricField*)) and no append reads beyond its source buffer; at every output event and at exit the CSR, wake-potential and particle datasets receive as many records as the time axis; the time value of the final record is simulationstep/steps; the derived quantities appended are the ones '
-                 'computed by the verified projection/moment/CSR functions from the current grid (refresh calls precede the append in the skeleton); pending RF records are flushed at exit',
+                 'computed by the verified projection/moment/CSR functions from the current grid (refresh calls precede the append in the skeleton); pending RF records are flushed at exit; '
+                 'unit factors: each of the 26 attributes the file constructor attaches is written from the quantity of its name (metres/seconds from the position axis\' unit-scale table, eV from the energy axis\', amperes/coulombs from the grid\'s current/charge, period and turns from the values main hands in, volts / W/Hz / W from the field), the grid carries the bl, dE, Qb, Ib that main derives from the recorded parameters by the documented formulas (generated and loaded start grids alike)',
         'assumptions': [DROPS, 'HDF5File: the pairing dataset <- source accessor, the record extents of every dataset against the layout of its source buffer (class invariants of PhaseSpace / ElectricField / KickMap), and one record per append call are obligations over AST facts; append(const ElectricField*, bool) is enforced by the VCG with _appendData bound to a capture of pointer and buffer contents; the HDF5 library is trusted to transfer exactly the selected extents'],
         'uncovered': ['frequency axis values', 'time values of intermediate records', 'the physics of the unit formulas themselves (they are pinned as documented: natural bunch length, energy spread, charge, synchrotron period, W/Hz and W factors)', 'factor4Ohms of the impedance (a constant of the class)'],
         'explanation': 'ghost row counters on the control skeleton',
